@@ -974,6 +974,7 @@ def run(R, tier):
     nontriv = set()
     evals = 0
     ok = 0
+    nknown = 0
     adj_notes = []
     failing = {}          # family -> list of (size, rec, codes): shrunk to the smallest configuration below
     failing_adj = {}      # same for the documented adjoint action (ADJ_DOCUMENTED families)
@@ -984,6 +985,7 @@ def run(R, tier):
             kf = known_for(fam, p)
             if kf:
                 R.known_finding(kf["id"], kf["what"])
+                nknown += 1
             else:
                 failing_err.setdefault((fam, rec["error"].split(":")[0]), []).append((prod(p.get("dims", p.get("N", [0]))), rec["id"], rec))
             continue
@@ -995,6 +997,7 @@ def run(R, tier):
             kf = known_for(fam, p, "C07")
             if kf:
                 R.known_finding(kf["id"], kf["what"])
+                nknown += 1
                 continue
             failing.setdefault(fam, []).append((rec["A"].size, rec["id"], rec, c))
             continue
@@ -1043,7 +1046,7 @@ def run(R, tier):
     fams = {}
     for rec in recs:
         fams[rec["family"]] = fams.get(rec["family"], 0) + 1
-    res = {"sub": SUB, "theorems": thms, "axioms": axioms, "configurations": len(recs), "discharged": ok,
+    res = {"sub": SUB, "theorems": thms, "axioms": axioms, "configurations": len(recs) - nknown, "known_finding_cases": nknown, "discharged": ok,
            "evaluations": evals, "distinct_nontrivial": len(nontriv), "families": fams,
            "ndim": {str(k): sum(1 for r in recs if len(r["params"].get("dims", r["params"].get("N", [0]))) == k) for k in (1, 2, 3, 4)},
            "complex": sum(1 for r in recs if r["cplx"]), "t_python": round(t1 - t0, 1), "t_coq": round(t2 - t1, 1),
